@@ -1,12 +1,13 @@
 #!/bin/bash
-# tools/try_seed.sh <seed-id> <check args...>: run a check against a scratch worktree of /repo with the
+# tools/try_seed.sh <seed-id | patch file> <check args...>: run a check against a scratch worktree of /repo with the
 # seeded change applied (never touches /repo).  Worktree and cache live under /tmp/try and can be removed at will.
 id=$1; shift
 WT=/tmp/try/wt
 mkdir -p /tmp/try
 [ -d $WT ] || git -C /repo worktree add -q --detach $WT HEAD
 git -C $WT checkout -q --detach "$(git -C /repo rev-parse HEAD)" && git -C $WT checkout -- .
-git -C $WT apply /verif/seeded/$id/patch.diff || exit 3
+patch=/verif/seeded/$id/patch.diff; [ -f "$id" ] && patch=$id
+git -C $WT apply $patch || exit 3
 cd /verif && MEMTERM_REPO=$WT MIRSYM_CACHE=/tmp/try/cache ./check "$@"
 rc=$?
 git -C $WT checkout -- .
